@@ -86,6 +86,8 @@ def gen_program(rng, depth):
         # a view-producing node with an argument-dependent parameter applied to a non-trivial constant expression
         n = rng.choice([2, 3])
         K = g.array(float, (rng.choice([1, 2]), n), max(1, depth-1))
+        if rng.random() < .7:
+            K = ev.Sin(K); g.hit('Trig')     # make sure the constant part is computed (owns its buffer), not a literal
         b = g.argument(bool, (n,))
         cnt = ev.Sum(ev.BoolToInt(b))
         which = rng.choice(['InsertAxis', '_TakeSlice', '_Get'])
@@ -355,14 +357,15 @@ def _confirm_once(compile_fn, args):
 
 
 def rerun_known(c):
+    """re-run the recorded minimal input of the open finding; returns whether it still fails in the recorded way"""
     e, args = known_input()
-    f = ev.compile(e)
-    r = f(args)
+    k, f = X.guarded(lambda: ev.compile(e), 20)
     fails = False
-    if isinstance(r, numpy.ndarray) and r.flags.writeable:
-        r[...] = 777
-        r2 = f(args)
-        fails = not same_value(r2, ev.compile(e)(args))
+    if k == 'ok':
+        o1 = outcome_of(lambda: f(args))
+        if o1[0] == 'ok' and isinstance(o1[1], numpy.ndarray) and o1[1].flags.writeable:
+            o1[1][...] = 777
+            fails = not same_outcome(outcome_of(lambda: f(args)), outcome_of(lambda: ev.compile(e)(args)))
     for entry in c.findings:
         if entry.get('status') == 'open' and entry.get('signature') == KNOWN_SIG:
             c.report_known_still_failing(entry, fails)
@@ -371,6 +374,40 @@ def rerun_known(c):
         c.failing_input(KNOWN_SIG, 'first call returns a writable view of a cached constant (setflags runs at the end of the first-run branch)',
                         dict(expr='InsertAxis(Sin(constant(arange(3.))), Sum(BoolToInt(Argument n (3,) bool)))', args=describe_args(args)))
     return fails
+
+
+def targeted_search(rng, compile_fn, args, newvalue, tries=6):
+    """deterministic histories aimed at stale caches: call(a0), call(a1), call(a0), overwrite results, call(a1), call(a0) —
+    each compared with a fresh function; returns a finding (signature, what, detail) or None"""
+    for t in range(tries):
+        a0 = {k: numpy.array(v) for k, v in args.items()} if t == 0 else {k: newvalue(k) for k in args}
+        a1 = {k: newvalue(k) for k in args}
+        f = compile_fn()
+        held = []
+        hist = []
+        for step, a in enumerate([a0, a1, a0, None, a1, a0]):
+            if a is None:
+                for r in held:
+                    try: r[...] = 777
+                    except Exception: pass
+                hist.append('scribble'); continue
+            a = {k: numpy.array(v) for k, v in a.items()}
+            first = bool(f.__globals__.get('first_run', False))
+            got = outcome_of(lambda: f(a)); want = outcome_of(lambda: compile_fn()(a))
+            hist.append(dict(args=describe_args(a), first_run=first))
+            if not same_outcome(got, want):
+                return ('call-differs-from-fresh', 'targeted history: call %d differs from a freshly compiled function' % (step + 1),
+                        dict(history=hist, got=to_list(got[1]) if got[0] == 'ok' else got, want=to_list(want[1]) if want[0] == 'ok' else want))
+            if got[0] == 'ok':
+                cache = cached_arrays(f)
+                for r in leaves(got[1]):
+                    if isinstance(r, numpy.ndarray) and r.flags.writeable and r.size:
+                        if not any(c_.size and numpy.shares_memory(r, c_) for c_ in cache.values()) or first:
+                            held.append(r)   # first-run aliases are the known finding: do not overwrite them here
+                        else:
+                            return ('rerun-writable-result-aliases-cache', 'targeted history: a rerun returned a writable array sharing memory with a cached global',
+                                    dict(history=hist))
+    return None
 
 
 def run(c):
@@ -385,7 +422,7 @@ def run(c):
     broken = c.build_and_audit()
     c.log('proofs built and audited')
     quick = c.tier == 'quick'
-    N = 70 if quick else 1300
+    N = 70 if quick else 3500
     maxcalls = 4 if quick else 8
     maxdepth = 4 if quick else 5
 
@@ -404,6 +441,7 @@ def run(c):
             c.count('generator-exception:' + type(ex).__name__); continue
         root = exprs if len(exprs) > 1 else exprs[0]
         simp = c.rng.random() < .7; opt = c.rng.random() < .7
+        if kind == 'guarded': simp = False      # simplification removes Guard nodes
         store = []
         def compile_fn(cache=True):
             return ev.compile(root, _simplify=simp, _optimize=opt, cache_const_intermediates=cache, stats=False)
@@ -501,6 +539,11 @@ def run(c):
         else:
             if m.get('dyn'):
                 continue   # already reported as failing input by the history search
+            found = targeted_search(c.rng, m['compile'], m['args'], m['newvalue'])
+            if found is not None:
+                c.count('static-flag-confirmed-by-targeted-search')
+                c.failing_input(found[0], found[1], dict(found[2], script=m['script'], verdict=a))
+                continue
             c.broken_no_input('static:' + ','.join(bad), 'hypotheses of the purity theorems cannot be established for a generated script and no failing history was found',
                               dict(script=m['script'], verdict=a, request=static_reqs[static_meta.index(m)]))
     for k, v in verdict_counts.items(): c.count('verdict:' + k, v)
